@@ -1,5 +1,6 @@
 import Nv.OracleIO
 import Nv.Model.C17Glue
+import Nv.Model.C04
 /-!
 oracle_c17 — line protocol. A key token is `<ty>:<value>:<hash>` with `ty` one of
 u8 i8 i16 u16 i32 u32 i64 u64 int uint hit (decimal value) | str bytes bs (hex bytes) | other (value 0),
@@ -61,6 +62,8 @@ inductive St
   | remap (n : Nat)
   | cont (kind : String) (n : Nat) (xhash : Bool) (shards : List MapSt)
   | lock (kind : String) (n : Nat) (xhash : Bool)
+  | wl (kd : Nv.C04.Kind) (n : Nat) (xhash : Bool) (shards : List Nv.C04.Lru) (seen : List Key)
+  | locks (kind : String) (n : Nat) (xhash : Bool) (ls : LockSt)
 
 def showOut : Out → String
   | .idx i => toString i
@@ -77,9 +80,59 @@ def showResp (lru : Bool) (req : MReq) (present : Bool) : MResp → String
   | .val none => "miss"
   | .bool b => if b then "true" else "false"
 
+/-- the configurations of the two LRU packages the C04 theorems are proved for (hand-written here: the LRU
+internals are C04's subject; this check is about the wide wrapper) -/
+def lruCfg : Nv.C04.Kind → Nv.C04.Cfg
+  | .sized => ⟨.gt, true, false, true, true⟩
+  | .tiny => ⟨.gt, true, false, true, false⟩
+
+def insertSeen (k : Key) : List Key → List Key
+  | [] => [k]
+  | x :: xs => if x.bits = k.bits then x :: xs else if k.bits < x.bits then k :: x :: xs else x :: insertSeen k xs
+
+def showLruOut : Nv.C04.Out → String
+  | .unit => "ok"
+  | .val (some v) => s!"v={v}"
+  | .val none => "miss"
+  | .bool b => if b then "true" else "false"
+  | .panic => "panic"
+  | _ => "?"
+
+def wlDump (n : Nat) (xh : Bool) (shards : List Nv.C04.Lru) (seen : List Key) : String :=
+  showList id (seen.filterMap fun k =>
+    match route n xh k with
+    | .idx i => (shards[i]?).bind fun s => (Nv.C04.find? k.bits s.list).map fun e => s!"{k.bits}:{e.val}"
+    | .panic => none)
+
+def parseKeys (s : String) : Option (List Key) := (s.splitOn ",").mapM parseKey
+
+def lockKeyOk (kind : String) (k : Key) : Bool :=
+  !(k.ty == .bytes || k.ty == .other) &&
+  !((kind == "tklock-i64" && k.ty != .i64) || (kind == "tklock-str" && k.ty != .str))
+
+/-- api token → (write?, multi-key API?) -/
+def parseApi (s : String) : Option (Bool × Bool) :=
+  match s with
+  | "w" => some (true, false) | "r" => some (false, false) | "ws" => some (true, true) | "rs" => some (false, true)
+  | _ => none
+
 def step (st : St) (line : String) : St × String :=
   match words line with
   | ["reset"] => (.none, "ok")
+  | ["wl", kind, cap, n, r] =>
+    match parseN n, (if isDecimal cap && cap.length ≤ 6 then cap.toNat? else none) with
+    | some n, some cap =>
+      if n = 0 ∨ n > 4096 ∨ ¬ (r == "simple" || r == "xhash") ∨ ¬ (kind == "lru" || kind == "tlru") then (st, "bad-op")
+      else (.wl (if kind == "lru" then .sized else .tiny) n (r == "xhash")
+              (List.replicate n (Nv.C04.Lru.new (Nv.C04.shardCap cap n))) [], "ok")
+    | _, _ => (st, "bad-op")
+  | ["locks", kind, n, r] =>
+    match parseN n with
+    | some n =>
+      if n = 0 ∨ n > 4096 ∨ ¬ (r == "simple" || r == "xhash") ∨
+          ¬ (kind == "klock" || kind == "tklock-i64" || kind == "tklock-str" || kind == "semap") then (st, "bad-op")
+      else (.locks kind n (r == "xhash") LockSt.empty, "ok")
+    | none => (st, "bad-op")
   | ["remap", n] =>
     match parseN n with
     | some 0 => (.none, "panic")
@@ -114,8 +167,59 @@ def step (st : St) (line : String) : St × String :=
           ¬ (kind == "klock" || kind == "tklock-i64" || kind == "tklock-str" || kind == "semap") then (st, "bad-op")
       else (.lock kind n (r == "xhash"), "ok")
     | none => (st, "bad-op")
+  | [op, t, api, ks] =>
+    match st with
+    | .locks kind n xh ls =>
+      match parseNat? t, parseApi api, parseKeys ks with
+      | some t, some (write, multi), some keys =>
+        if !(op == "acq" || op == "rel") || t > 3 || !isDecimal (toString t) || !keys.all (lockKeyOk kind) ||
+            (!multi && keys.length != 1) || (multi && !(kind == "tklock-i64" || kind == "tklock-str")) then (st, "bad-op")
+        else if keys.any (fun k => match route n xh k with | .idx i => decide (i ≥ n) | .panic => true) then (st, "panic")
+        else if op == "acq" then
+          match ls.acquire t keys write with
+          | some (ls', granted) => (.locks kind n xh ls', if granted then "ret" else "parked")
+          | none => (st, "bad-op")
+        else
+          match ls.release t keys write with
+          | some (ls', some w) => (.locks kind n xh ls', s!"ret wake:{w}")
+          | some (ls', none) => (.locks kind n xh ls', "ret")
+          | none => (st, "bad-op")
+      | _, _, _ => (st, "bad-op")
+    | .wl kd n xh shards seen =>
+      -- `set <key> <v> <size>` on a wide LRU
+      match parseKey t with
+      | some key =>
+        if op != "set" || key.ty != .int || key.bits ≥ 2 ^ 62 || !isDecimal api || api.length > 9 || !isDecimal ks || ks.length > 4 then (st, "bad-op")
+        else
+          match api.toNat?, ks.toNat?, route n xh key with
+          | some v, some sz, .idx i =>
+            match shards[i]? with
+            | some sh =>
+              let r := Nv.C04.step (lruCfg kd) kd sh (.set key.bits v sz)
+              let shards' := shards.set i r.1
+              let seen' := insertSeen key seen
+              (.wl kd n xh shards' seen', s!"{showLruOut r.2} | P={wlDump n xh shards' seen'}")
+            | none => (st, "panic")
+          | _, _, _ => (st, "bad-op")
+      | none => (st, "bad-op")
+    | _ => (st, "bad-op")
   | op :: k :: rest =>
     match st, parseKey k with
+    | .wl kd n xh shards seen, some key =>
+      if key.ty != .int || key.bits ≥ 2 ^ 62 || !rest.isEmpty then (st, "bad-op") else
+      let lop : Option Nv.C04.Op := match op with
+        | "get" => some (.get key.bits) | "peek" => some (.peek key.bits)
+        | "exist" => some (.exist key.bits) | "del" => some (.delete key.bits) | _ => none
+      match lop, route n xh key with
+      | some lop, .idx i =>
+        match shards[i]? with
+        | some sh =>
+          let r := Nv.C04.step (lruCfg kd) kd sh lop
+          let shards' := shards.set i r.1
+          let seen' := insertSeen key seen
+          (.wl kd n xh shards' seen', s!"{showLruOut r.2} | P={wlDump n xh shards' seen'}")
+        | none => (st, "panic")
+      | _, _ => (st, "bad-op")
     | .cont kind n xh shards, some key =>
       if key.ty == .bytes || key.ty == .other then (st, "bad-op") else
       let req : Option MReq := match op, rest with
